@@ -105,7 +105,7 @@ def lookup_case(rng, kind, recs, fail=None):
 
 
 def generate(rng, tier):
-    n_stores, per_store = (2, 26) if tier == "quick" else (10, 80)
+    n_stores, per_store = (3, 45) if tier == "quick" else (20, 120)
     cases = []
     for kind in ("mem", "file", "s3"):
         for s in range(n_stores):
